@@ -71,7 +71,7 @@ def run(ck: Checker, prog: Program, tier: str):
     # the update tables of C08 (range / arguments remembered, metadata a private copy)
     from . import c08
     with ck.borrow(c08, "C12.R7+"):
-        ck.guard(c08._update_tables, ck, prog)
+        ck.guard(c08._r2, ck, prog)         # includes the update tables
     ck.guard(_writers_truncate, ck, prog)
 
 
